@@ -97,6 +97,8 @@ def subsets_for(tier, seed):
         for r in range(0, 13):
             for c in itertools.combinations(TRAITS, r):
                 allsub.append(list(c))
+        rng = rng_for(seed, PROP, "subsets-full")
+        allsub += [["full"]] + [sorted(rng.sample(TRAITS, rng.randint(1, 11)), key=TRAITS.index) + ["full"] for _ in range(60)]
         return allsub
     rng = rng_for(seed, PROP, "subsets")
     subs = [[]] + [[t] for t in TRAITS] + [[x for x in TRAITS if x != t] for t in TRAITS]
@@ -105,9 +107,11 @@ def subsets_for(tier, seed):
     for _ in range(40):
         k = rng.randint(1, 11)
         subs.append(sorted(rng.sample(TRAITS, k), key=TRAITS.index))
+    # `full` is not a trait feature: it must neither satisfy the "at least one trait" guard nor disturb a build
+    subs += [["full"], ["Debug", "full"], ["Default", "full"], ["Into", "Clone", "full"]]
     seen, out = set(), []
     for s in subs:
-        t = tuple(sorted(s, key=TRAITS.index))
+        t = tuple(sorted(s, key=(TRAITS + ["full"]).index))
         if t not in seen:
             seen.add(t)
             out.append(list(t))
@@ -126,6 +130,12 @@ def corpus(seed, n):
             td = G.random_type(rng, ts, G.Opts(p_attr=0.6, max_fields=3, max_variants=3))
         text = S.render(td, rng_for(seed, PROP, "spell", k), extras=False).replace("::educe::Educe", "Educe")
         cases.append(("c%d" % k, td, text))
+    # requests that must be refused (C13's generator): a subset build has to refuse them as well
+    from . import c13
+    for k in range(n // 3):
+        g = c13.gen_case(seed, k)
+        if g is not None and g[1] is not None:
+            cases.append(("r%d" % k, g[1], g[2].replace("::educe::Educe", "Educe")))
     return cases
 
 
@@ -176,7 +186,7 @@ def main(tier, seed, scale=1.0):
     for feats, rc, diags, err in results:
         chk.evaluations += 1
         key = "+".join(feats) or "(none)"
-        if not feats:
+        if not [f for f in feats if f != "full"]:
             msgs = [d["message"] for d in diags if d["level"] == "error"]
             if rc == 0 or not any(EMPTY_MSG in m for m in msgs):
                 chk.violation("empty-set", "with no trait feature the crate must refuse to build with its explicit message; "
@@ -191,7 +201,8 @@ def main(tier, seed, scale=1.0):
                           "feature subset [%s] does not build cleanly: %s: %s\n%s" %
                           (key, d.get("level"), d.get("message"), (d.get("rendered") or "")[:1500]), {"features.txt": key})
             continue
-        built_ok.append(feats)
+        if "full" not in feats:
+            built_ok.append(feats)
         chk.held("build:" + key, len(feats) < 12, 0)
         chk.count("build-ok/size=%d" % len(feats))
     chk.extra["exhaustive"] = tier == "thorough"
@@ -281,10 +292,19 @@ def main(tier, seed, scale=1.0):
         n_same = n_ref = 0
         for cid, td, text in cases:
             r, f = res.get(cid), full.get(cid)
-            if r is None or f is None or r.get("st") in ("harness", "crash", "timeout") or f.get("st") != "ok":
+            if r is None or f is None or r.get("st") in ("harness", "crash", "timeout") or f.get("st") not in ("ok", "err"):
                 continue
             chk.evaluations += 1
             mentioned = set(td.traits)
+            if f.get("st") == "err":
+                # refused by the all-features build: refused here too (for this reason or because a trait is disabled)
+                if r.get("st") != "err":
+                    chk.violation("refusal-lost", "with features [%s] a request the all-features build refuses (%s) is accepted\n%s"
+                                  % (key, f.get("msg", "")[:200], text), {"input.rs": text, "features.txt": key})
+                    bad = True
+                    break
+                n_ref += 1
+                continue
             if mentioned <= fs:
                 if r.get("st") != "ok" or r.get("out") != f.get("out"):
                     chk.violation("behaviour|%s" % "+".join(sorted(mentioned & {"PartialOrd", "Ord", "PartialEq", "Eq", "Clone", "Copy"})
